@@ -31,6 +31,7 @@ func init() {
 		Parts: []Part{
 			{Name: "merge", Run: c15Run, QuickS: 90, ThoroughS: 900},
 			{Name: "reuse", Run: c15Reuse, QuickS: 60, ThoroughS: 600},
+			{Name: "reinitialize", Run: c15Reinit, QuickS: 60, ThoroughS: 300},
 		},
 	})
 }
